@@ -44,7 +44,9 @@ P = {
          "Decides, for every command and token, that allocate/cancel/release/results effects in the work ControlFunc are unreachable unless processSignature (about the same work type, sign flag and unit) returned nil in the same arm; that processSignature returns nil only for a non-verifying type with an empty token, a Unix-socket peer, or a successful VerifySignature; that VerifySignature returns nil only after non-empty token, configured key, key load, ParseWithClaims with claims validation enabled into RegisteredClaims, token.Valid and VerifyAudience(this node, required); that the key func yields a typed *rsa.PublicKey; and that no other control command reaches the effect functions. It does not decide JWT/RSA cryptography or clocks.",
          "Trusts go/types, go/ssa, and the stated golang-jwt/v4 contracts (default parser validates exp/nbf; method/key type agreement)."),
  "C16": (False, "construction and routing filters of the unreachable notice (edge cuts + field-to-field value identity)", "", ""),
- "C17": (False, "channel-close ownership, nil-safe repeated close, owned-release pairing, lostcancel, goroutine termination arms, close ordering", "", ""),
+ "C17": (True, "channel-close ownership rule, nil-guard obligations in the close cone, done-signal must-pass-through, owned-release path rule for ephemeral sockets, lost-cancel path rule, per-goroutine termination-arm rule, guarded-by lockset for the listener registry, context-parent table, close-ordering rule",
+         "Decides, for every schedule of close/shutdown/traffic in pkg/netceptor and pkg/utils: each close(chan) is a sync.Once body, or is done by the single goroutine that is the channel's only sender and never twice on a path, or belongs to the broker whose delivery goroutines are awaited before it can close subscriber channels; no map-entry pointer is dereferenced in the close cone without a presence/nil test; terminal methods close their done channel on every path; a socket obtained from ListenPacket is closed or handed to an owner on every path, and the owner type releases it (today Conn.Close/CloseConnection do not: known finding K2); every context.With* cancel function is used on every path; every goroutine's blocking channel operations have a context/done/timer arm or block only on owner-closed channels; the listener registry is accessed under listenerLock; derived contexts descend from the node context that Shutdown cancels; Listener.Close closes the QUIC listener before its packet connection. It does not decide actual boundedness of resources at run time.",
+         "Trusts go/types, go/ssa, sync.Once/context contracts; quic-go's lock behaviour as observed for R8."),
  "C18": (False, "acceptance guard edge-cut, relay discipline, withdrawal on close, tombstone retention (one-sided comparison)", "", ""),
  "C19": (False, "who-may-call UnredactedStatus; same normaliser on redaction and admission; refusal precedes storage", "", ""),
  "C20": (False, "no constant-offset slicing of DER; decode error propagation; SAN copied verbatim; exact name match", "", ""),
